@@ -823,9 +823,15 @@ func genNest(rec *ev.Rec, open map[string]bool) func(*rapid.T) Case {
 				}
 			}
 		}
-		// a v-once member chosen more than once is C16's subject: not generated here
-		for _, n := range st.onceRepeat {
-			n.Once = false
+		// a v-once member that is chosen more than once in a render - in any enclosing loop, loop
+		// member or re-used slot content - is C16's subject: not generated here. Clearing one
+		// v-once can multiply the arrivals at the members below it (a member with v-for and v-once
+		// renders one instance only), so repeat until no such member is left.
+		for len(st.onceRepeat) > 0 {
+			for _, n := range st.onceRepeat {
+				n.Once = false
+			}
+			_, st = expect(&c)
 		}
 		if open[fForSkip] {
 			for _, n := range st.forSkipped {
